@@ -16,7 +16,8 @@ from common import Report, ToolError, chars, check_action_coverage, log, run_cas
 
 def place(word, k):
     """put the word at different positions next to quoted arguments; returns (line, before, after)"""
-    shapes = [("vpa %s", [], []), ("vpa L %s 'q r' R", ["L"], ["q r", "R"]), ("vpa \"x y\" %s", ["x y"], []), ("vpa %s '*' \"{a,b}\" '~'", [], ["*", "{a,b}", "~"])]
+    shapes = [("vpa %s", [], []), ("vpa L %s 'q r' R", ["L"], ["q r", "R"]), ("vpa \"x y\" %s", ["x y"], []), ("vpa %s '*' \"{a,b}\" '~'", [], ["*", "{a,b}", "~"]),
+              ("vpa %s {x,y}", [], ["x", "y"]), ("vpa {x,y}z %s R", ["xz", "yz"], ["R"])]      # a second brace word on the same line
     fmt, b, a = shapes[k % len(shapes)]
     return fmt % word, b, a
 
